@@ -62,8 +62,16 @@ package hydra
 //@ trusted func (github.com/hydraide/hydraide/app/name.Name).GetFullHashPath(n, root, island, depth, fanout) (p)
 //@ trusted func (github.com/hydraide/hydraide/app/core/hydra/swamp/metadata.Metadata).LoadFromFile(m)
 //@ trusted func (github.com/hydraide/hydraide/app/core/hydra/swamp/metadata.Metadata).SetSwampName(m, n)
+//@ trusted func (github.com/hydraide/hydraide/app/core/settings/setting.Setting).GetMaxFileSizeByte(st) (n)
+//@ trusted func (github.com/hydraide/hydraide/app/core/hydra/swamp/chronicler.Chronicler).CreateDirectoryIfNotExists(c)
 //@ func (*hydra).loadChronicler(h, swampSettings, folder, meta, n, useV2) (c)
-//@   opaque
+//@   property C16 C29
+//@   overflow: assumed
+//@   modifies *
+//@   before NewV2WithName [v2_storage_in_the_given_folder_under_the_swamps_own_name] useV2 && arg0 == folder && arg2 == icall("Get", n)
+//@   before New [v1_storage_in_the_given_folder] !useV2 && arg0 == folder && arg4 == meta
+//@   ensures[exactly_one_engine] calls("NewV2WithName") + calls("New") == old(calls("NewV2WithName")) + old(calls("New")) + 1
+//@   ensures[directory_prepared] calls("Chronicler.CreateDirectoryIfNotExists") == old(calls("Chronicler.CreateDirectoryIfNotExists")) + 1
 //@   ensures c != nil
 //@ func (*hydra).IsExistSwamp(h, islandID, n) (found, err)
 //@   property C20
